@@ -61,6 +61,11 @@ const SENTINEL: i64 = 1_000_000_000; // 2001-09-09
 
 fn write_file(root: &Path, f: &Value) -> Vec<u8> {
     let p = root.join(f["path"].as_str().unwrap());
+    if f.get("dir").and_then(|x| x.as_bool()).unwrap_or(false) {
+        // an (empty) directory of the project
+        std::fs::create_dir_all(&p).unwrap();
+        return vec![];
+    }
     if let Some(d) = p.parent() {
         std::fs::create_dir_all(d).unwrap();
     }
@@ -323,7 +328,9 @@ fn run_case(case: &Value, root: &Path, cli: &str, templates: &Value) -> Value {
     if let Some(t) = case.get("template").and_then(|x| x.as_str()) {
         for f in templates[t].as_array().unwrap_or(&vec![]) {
             let d = write_file(root, f);
-            initial.insert(f["path"].as_str().unwrap().to_string(), d);
+            if f.get("dir").is_none() {
+                initial.insert(f["path"].as_str().unwrap().to_string(), d);
+            }
         }
     }
     let changed_only = case.get("report").and_then(|x| x.as_str()) == Some("changed");
@@ -332,7 +339,20 @@ fn run_case(case: &Value, root: &Path, cli: &str, templates: &Value) -> Value {
     }
     for f in case.get("files").and_then(|x| x.as_array()).unwrap_or(&vec![]) {
         let d = write_file(root, f);
-        initial.insert(f["path"].as_str().unwrap().to_string(), d);
+        if f.get("dir").is_none() {
+            initial.insert(f["path"].as_str().unwrap().to_string(), d);
+        }
+    }
+    // the directories of the materialised project: a run that removes one of them is reported
+    let mut initial_dirs: Vec<String> = vec![];
+    {
+        let mut t = Map::new();
+        snapshot(root, "", &mut t);
+        for (k, v) in &t {
+            if v.get("dir").is_some() {
+                initial_dirs.push(k.clone());
+            }
+        }
     }
     let sentinel = case.get("sentinel").and_then(|x| x.as_bool()).unwrap_or(false);
     let newer: Vec<String> = case.get("newer").and_then(|x| x.as_array()).map(|a| a.iter().filter_map(|x| x.as_str().map(|s| s.to_string())).collect()).unwrap_or_default();
@@ -391,8 +411,13 @@ fn run_case(case: &Value, root: &Path, cli: &str, templates: &Value) -> Value {
                     }
                 }
                 for k in initial.keys() {
-                    if !root.join(k).exists() {
+                    if !root.join(k).exists() && !tree.contains_key(k) {
                         tree.insert(k.clone(), json!({"deleted": true}));
+                    }
+                }
+                for k in &initial_dirs {
+                    if !root.join(k).exists() {
+                        tree.insert(k.clone(), json!({"deleted": true, "was_dir": true}));
                     }
                 }
             }
